@@ -228,6 +228,11 @@ def diff(a, b, path=''):
         return None
     if type(a) is not type(b):
         return '%s: class %s != %s' % (path, type(a).__name__, type(b).__name__)
+    if type(a).__module__.startswith('asn1crypto') and hasattr(a, 'dump'):
+        try:
+            return None if a.dump() == b.dump() else path + ': DER differs'
+        except Exception as e:  # pylint: disable=broad-except
+            return '%s: dump() raised %r' % (path, e)
     fields_a, fields_b = _fields_of(a), _fields_of(b)
     if fields_a is not None and fields_b is not None and \
             type(a).__module__.split('.')[0] in ('cryptoparser', 'cryptodatahub'):
@@ -261,12 +266,34 @@ def defines_eq(cls):
     return False
 
 
+def graph_has_class_without_eq(obj, depth=0):
+    """True when a library object without __eq__ (e.g. LanguageTag) is reachable: then == of the enclosing
+    object compares identities somewhere and says nothing about field-by-field equality."""
+    from cryptoparser.common.base import ArrayBase  # pylint: disable=import-outside-toplevel
+    if depth > 30 or obj is None or isinstance(obj, (bool, int, float, str, bytes, bytearray, enum.Enum,
+                                                      datetime.datetime, datetime.timedelta)):
+        return False
+    if isinstance(obj, (list, tuple, set, frozenset, ArrayBase)):
+        return any(graph_has_class_without_eq(item, depth + 1) for item in obj)
+    if isinstance(obj, dict):
+        return any(graph_has_class_without_eq(item, depth + 1) for item in obj.values())
+    module = type(obj).__module__
+    if module.startswith('cryptoparser.') or module.startswith('cryptodatahub.'):
+        if not defines_eq(type(obj)):
+            return True
+        fields = _fields_of(obj) or []
+        return any(graph_has_class_without_eq(value, depth + 1) for _name, value in fields)
+    return not defines_eq(type(obj))
+
+
 def same(a, b):
-    """'equal, field by field': structural equality, plus the library's own == where it defines one."""
+    """'equal, field by field': structural equality, plus the library's own == where it defines one (and where
+    every nested library object defines one too)."""
     found = diff(a, b)
     if found:
         return found
-    if type(a) is type(b) and defines_eq(type(a)) and not isinstance(a, (int, float, str, bytes, bytearray)):
+    if type(a) is type(b) and defines_eq(type(a)) and not isinstance(a, (int, float, str, bytes, bytearray)) \
+            and not graph_has_class_without_eq(a):
         try:
             if not a == b:
                 return '==: structurally equal objects compare unequal'
